@@ -16,6 +16,7 @@ type Config struct {
 	Horizon      int           // maximal number of transitions per execution
 	NoCache      bool          // disable the happens-before state cache
 	NoReduce     bool          // disable the begin/spawn/join persistent-set reduction
+	Symmetry     bool          // merge states that differ by a permutation of interchangeable workers (SpawnSym)
 	Budget       time.Duration // wall-clock budget; 0 = none.  Hitting it makes the result non-exhaustive.
 	MaxExec      int64
 	Stall        time.Duration // watchdog for a thread that does not reach a point
@@ -185,9 +186,9 @@ loop:
 		if useCache {
 			pr.keys = make([]uint64, len(tr))
 			for i, a := range tr {
-				k := x.predictKey(a)
+				k, last := x.predictKey(a)
 				if e.Cfg.PreemptBound >= 0 {
-					k = mix(k, uint64(x.preempt+pr.cost[i]), uint64(a.t.id))
+					k = mix(k, uint64(x.preempt+pr.cost[i]), last)
 				}
 				pr.keys[i] = k
 			}
@@ -211,7 +212,7 @@ loop:
 		if useCache && idx >= len(prefix)-1 {
 			k := x.stateKey()
 			if e.Cfg.PreemptBound >= 0 {
-				k = mix(k, uint64(x.preempt), uint64(x.last.id))
+				k = mix(k, uint64(x.preempt), x.lastKey())
 			}
 			if k != pr.keys[c] {
 				x.mu.Unlock()
